@@ -1866,7 +1866,11 @@ class Interp:
             keyf = kwargs.get('key')
             def kf(x):
                 y = self.apply(keyf, [x], {}, e, fr) if keyf is not None else x
+                if isinstance(y, Opaque) and y.name in ('inf', 'nan'):
+                    return float('inf')
                 c = concrete(y) if isinstance(y, Node) else y
+                if c is None and isinstance(y, Node):
+                    raise AnalysisError(f'{fr.mod.where(e)}: sorting by a symbolic key')
                 return c if c is not None else y
             return sorted(v, key=kf, reverse=bool(kwargs.get('reverse', False)))
         if nm == 'map':
